@@ -7,6 +7,9 @@ baseline = json.load(open('/root/.vp/BASELINE.json'))['cmd'] if os.path.exists('
 SIM = "deterministic simulation with fault injection (seeded schedules over real olric+memberlist+redcon+go-redis in one synctest bubble)"
 NOTE = "Trusts the simulator seams (simnet, simsync, fake clock) and that the mechanical source rewrite preserves olric's semantics; 1 P per run; sampling."
 claimed = {
+ "C03": dict(level="exploration", design="DESIGN.md §8 C03",
+   text="Seeded search over join/leave/crash sequences with single-writer-per-key traffic running through the hand-over: every read during the hand-over must return the last acknowledged value, and after bounded re-stabilisation every member returns it, a full scan yields exactly the live keys, DM.GETENTRY on every member shows exactly one primary copy and the backup copies a key had before the joins; departures happen only when every asserted key has its backup copies (checked at run time).",
+   note=NOTE, technique=SIM + "; membership-change injection + single-writer history oracle + copy census"),
  "C02": dict(level="exploration", design="DESIGN.md §8 C02",
    text="Seeded search over failure instants: single-writer-per-key workloads run while up to R-1 members (owner/backup of a hot key, coordinator, bystander) leave gracefully or crash (reset or silence), including at instants with RESP traffic in flight; after bounded re-stabilisation every key is read through every survivor and compared with the acknowledged history (errors = indeterminate writes), then a fault-free phase must behave sequentially.",
    note=NOTE + " Crash = atomic cut from the network; nothing of a crashed member survives (olric has no durable state).", technique=SIM + "; crash/leave injection + acknowledged-history oracle"),
